@@ -216,6 +216,20 @@ def diagnose(spec, r, depth=0):
                 out += diagnose(spec["val"], vv, depth + 1)
         elif k == "opt":
             out += diagnose(spec["a"], r, depth + 1)
+        elif k in ("union", "xor", "and"):
+            # a lax node among the arguments produced r (same origin, diagnosis non-empty) and no other argument explains r
+            found = []
+            for i, a in enumerate(spec["a"]):
+                if a["k"] == "not":
+                    continue
+                dg = diagnose(a, r, depth + 1)
+                if dg:
+                    found.append((i, dg))
+            if found:
+                bad = {i for i, _ in found}
+                others = [a for i, a in enumerate(spec["a"]) if i not in bad and a["k"] != "not"]
+                if not any(tspec.conforms(r, a) for a in others):
+                    out += found[0][1]
     except Exception:
         return out
     return out[:1]
